@@ -42,6 +42,7 @@ func runC02(c *Ctx) {
 	// a `position … moves` list reaches the board only through IsPseudoLegal: a legal move the gate rejects
 	// (or an illegal one it lets through) makes the position command produce a different successor
 	c.As("C05.R", "C02.R9.gate:R", func() { c05R1R4(c, p); c05R2(c, p) })
+	epNullRule(c, p, "C02.R10.ep-null")
 }
 
 // atom is a normalised atomic condition.
